@@ -548,6 +548,109 @@ example :
     (request (chain.revokeDelegation 2) "kip:space:default" bot "read" {} 2050).toOption.map (·.decision) = some .deny := by
   decide
 
+/-- `anc` is the resolved candidate of a link above `d` in its chain of parents (at any distance). -/
+inductive Ancestor (w : World) (sp : SpaceRow) : Nat → DelegationRow → Candidate → Prop
+  | parent {fuel : Nat} {d linked : DelegationRow} {inh : Candidate} :
+      d.parent ≠ "" → d.parentRow = some linked.rowId → w.delegation linked.rowId = some linked →
+      resolveDelegation w sp fuel linked = .ok (some inh) → Ancestor w sp (fuel + 1) d inh
+  | above {fuel : Nat} {d linked : DelegationRow} {anc : Candidate} :
+      d.parent ≠ "" → d.parentRow = some linked.rowId → w.delegation linked.rowId = some linked →
+      Ancestor w sp fuel linked anc → Ancestor w sp (fuel + 1) d anc
+
+/-- **Monotone attenuation along a chain.** Whatever a re-delegation resolves to is contained, on every
+dimension, in the resolved candidate of EVERY link above it: scope lists (kinds, types, classifications,
+elements), conditions (purposes, assurance, strength, validity window) and constraints (field mask,
+max_results, influence and classification ceilings, export), with "empty = unrestricted" handled as
+`narrows` does — an empty child list under a non-empty parent list is NOT contained, and two non-empty
+disjoint lists are not either (`narrows_disjoint`); and its actions are among that link's. Hence it matches
+only requests that every link above it matches. -/
+theorem chain_attenuates (w : World) (sp : SpaceRow) :
+    ∀ (fuel : Nat) (d : DelegationRow) (c anc : Candidate), resolveDelegation w sp fuel d = .ok (some c) →
+      Ancestor w sp fuel d anc →
+      anc.scope.contains c.scope = true ∧ anc.conditions.contains c.conditions = true ∧
+      anc.constraints.contains c.constraints = true ∧ (∀ x ∈ c.actions, x ∈ anc.actions) ∧
+      ∀ perm res a now, candidateMatches c perm res a now = true → candidateMatches anc perm res a now = true := by
+  intro fuel d c anc h hanc
+  have key : anc.scope.contains c.scope = true ∧ anc.conditions.contains c.conditions = true ∧
+      anc.constraints.contains c.constraints = true ∧ (∀ x ∈ c.actions, x ∈ anc.actions) := by
+    induction hanc generalizing c with
+    | @parent fuel d linked inh hp hrow hl hin =>
+      obtain ⟨row, linked', inherited', hrow', hl', _, _, _, _, _, hin', c1, c2, c3, rfl⟩ := resolveDelegation_linked w sp fuel d c hp h
+      rw [hrow] at hrow'; cases hrow'
+      rw [hl] at hl'; cases hl'
+      rw [hin] at hin'; cases hin'
+      refine ⟨c1, c2, c3, ?_⟩
+      intro x hx
+      have := (List.mem_filter.mp hx).2
+      simpa using this
+    | @above fuel d linked anc hp hrow hl _ ih =>
+      obtain ⟨row, linked', inherited', hrow', hl', _, _, _, _, _, hin', c1, c2, c3, rfl⟩ := resolveDelegation_linked w sp fuel d c hp h
+      rw [hrow] at hrow'; cases hrow'
+      rw [hl] at hl'; cases hl'
+      obtain ⟨i1, i2, i3, i4⟩ := ih inherited' hin'
+      refine ⟨Scope.contains_trans _ _ _ i1 c1, Conditions.contains_trans _ _ _ i2 c2, Constraints.contains_trans _ _ _ i3 c3, ?_⟩
+      intro x hx
+      have := (List.mem_filter.mp hx).2
+      exact i4 x (by simpa using this)
+  obtain ⟨k1, k2, k3, k4⟩ := key
+  refine ⟨k1, k2, k3, k4, ?_⟩
+  intro perm res a now hm
+  simp only [candidateMatches, Bool.and_eq_true] at hm ⊢
+  obtain ⟨⟨hact, hreach⟩, hcond⟩ := hm
+  refine ⟨⟨by simpa using k4 perm (by simpa using hact), ?_⟩, conditionsHold_of_contains _ _ a now k2 hcond⟩
+  rcases Bool.or_eq_true _ _ ▸ hreach with hs | hs
+  · simp [hs]
+  · simp only [Bool.and_eq_true] at hs
+    simp only [Bool.or_eq_true, Bool.and_eq_true]
+    exact Or.inr ⟨scopeMatches_of_contains _ _ res k1 hs.1, reaches_of_contains _ _ res k3 hs.2⟩
+
+/-- What the bound of a link must be when parent and child name two non-empty DISJOINT lists: nothing. The
+code's form (`linkBound false`) refuses the link; the intersecting form yields the empty list, which `covers`
+reads as "every value" — so it reaches values NEITHER list names. -/
+theorem disjoint_bounds_confer_nothing (parent child : List String) (hp : parent ≠ []) (hc : child ≠ [])
+    (hd : ∀ x ∈ child, x ∉ parent) :
+    linkBound false parent child = none ∧
+    linkBound true parent child = some [] ∧ ∀ v, covers (intersectBound parent child) v = true := by
+  have hn := narrows_disjoint parent child hp hc hd
+  have hpe : parent.isEmpty = false := by simpa using hp
+  have hce : child.isEmpty = false := by simpa using hc
+  have hi : intersectBound parent child = [] := by
+    simp only [intersectBound, hpe, hce, Bool.false_eq_true, if_false, List.filter_eq_nil_iff]
+    intro x hx hcx
+    exact hd x (by simpa using hcx) hx
+  refine ⟨by simp [linkBound, hn], by simp [linkBound, hi], fun v => by simp [hi, covers]⟩
+
+/-- …and whenever the code's form does bound a link, the bound is the child's own list, every value it covers
+is covered by the parent's list, and it is never wider than the intersecting form would be on non-empty lists. -/
+theorem link_bound_is_contained (parent child b : List String) (h : linkBound false parent child = some b) :
+    b = child ∧ ∀ v, covers b v = true → covers parent v = true := by
+  simp only [linkBound, Bool.false_eq_true, if_false] at h
+  split at h
+  · rename_i hn
+    simp at h; subst h
+    exact ⟨rfl, fun v hv => covers_of_narrows parent _ v hn hv⟩
+  · simp at h
+
+example :
+    -- lead —grant→; lead → mid bounded to `public`; mid → bot bounded to `secret` (disjoint): bot reads neither label;
+    -- with `public` again (equal) bot reads public only; the field-mask variant `[name]` vs `[attributes]` confers nothing
+    let base := (((World.bootstrap.ensurePrincipal "lead").ensurePrincipal "mid").ensurePrincipal "bot").createGrant
+      { rowId := 0, spaceId := "kip:space:default", granteePrincipal := "lead", actions := ["read"], delegationAllowed := true }
+    let up := base.createDelegation { rowId := 0, spaceId := "kip:space:default", delegator := "lead", delegate := "mid", actions := ["read"],
+                                      scope := { classifications := ["public"] }, constraints := { fields := ["name"] }, mayRedelegate := true }
+    let child (cls flds : List String) : DelegationRow :=
+      { rowId := 0, spaceId := "kip:space:default", delegator := "mid", delegate := "bot", actions := ["read"],
+        scope := { classifications := cls }, constraints := { fields := flds }, parent := "kip:delegation:1", parentRow := some 1 }
+    let bot : Auth := { principalId := "bot", authStrength := "standard" }
+    let ask (w : World) (cls : String) := (request w "kip:space:default" bot "read" { kind := "concept", classification := cls, elementId := "C-1" } 2050).toOption.map (·.decision)
+    ask (up.createDelegation (child ["secret"] ["name"])) "secret" = some .deny ∧
+    ask (up.createDelegation (child ["secret"] ["name"])) "public" = some .deny ∧
+    ask (up.createDelegation (child ["public"] ["attributes"])) "public" = some .deny ∧
+    ask (up.createDelegation (child [] ["name"])) "public" = some .deny ∧
+    ask (up.createDelegation (child ["public"] ["name"])) "public" = some .allowWithConstraints ∧
+    ask (up.createDelegation (child ["public"] ["name"])) "secret" = some .deny := by
+  decide
+
 /-- Suspending, revoking or never registering the Principal that made a Delegation cuts that Delegation
 off: whenever a decision cites a Delegation, a row of that id exists whose delegator is a registered, active
 Principal — for direct Delegations and, since the repair of finding F-C19-4 (commit 3f00f56), for
